@@ -31,7 +31,15 @@ CONSTANTS NG,         \* number of goroutines
 
 VARIABLES T, prog, pc, loc, fl, path
 vars == <<T, prog, pc, loc, fl, path>>
-View == <<T, prog, pc, loc, fl>>
+(* Heap ids are allocation order, so two interleavings that differ only in who allocated first reach states equal up   *)
+(* to a renaming of ids that keeps every goroutine's own order; Resolve only uses loc[g][j], so Next is invariant under  *)
+(* such renamings. The view names a tensor by (owner, position in the owner's list); `path` is output only.              *)
+CName(x) == IF T[x].owner = 0 THEN <<0, x>> ELSE <<T[x].owner, CHOOSE j \in DOMAIN loc[T[x].owner] : loc[T[x].owner][j] = x>>
+CRec(x) == [tracked |-> T[x].tracked, spent |-> T[x].spent, wired |-> T[x].wired, hasGrad |-> T[x].hasGrad,
+            args |-> [k \in DOMAIN T[x].args |-> CName(T[x].args[k])]]
+CFoot(S) == {<<e[1], CName(e[2])>> : e \in S}
+View == <<prog, pc, [x \in 1..3 |-> CRec(x)], [g \in 1..NG |-> [j \in DOMAIN loc[g] |-> CRec(loc[g][j])]],
+          [g \in 1..NG |-> [r |-> CFoot(fl[g].r), w |-> CFoot(fl[g].w), on |-> fl[g].on]]>>
 
 G == 1..NG
 Ids == 1..Len(T)
